@@ -380,12 +380,18 @@ func genOpenTime(r *vk.Run, budget int) {
 	caseOtEntry(r, tbEntry(10, 64, 54, 3, 40, true, r.Rng), "valid")
 	caseOtEntry(r, tbEntry(0, 64, 10, 1<<63, 64, false, r.Rng), "witness") // negative initialHLogSize
 	for _, v := range otU64 {
-		caseOtEntry(r, tbEntry(v, 64, 10, 0, 64, r.Rng.Intn(2) == 0, r.Rng), "field")
-		caseOtEntry(r, tbEntry(0, v, 10, 0, 64, false, r.Rng), "field")
-		caseOtEntry(r, tbEntry(0, 64, uint32(v), 0, 64, false, r.Rng), "field")
 		caseOtEntry(r, tbEntry(0, 64, 10, v, 64, false, r.Rng), "field")
-		caseOtEntry(r, tbEntry(0, 64, 10, 0, v, false, r.Rng), "field")
-		caseOtEntry(r, tbEntry(0, 64, 10, v, v+uint64(r.Rng.Intn(70)), false, r.Rng), "field")
+		caseOtEntry(r, tbEntry(0, 64, uint32(v), 0, 64, false, r.Rng), "field")
+		switch r.Rng.Intn(4) {
+		case 0:
+			caseOtEntry(r, tbEntry(v, 64, 10, 0, 64, r.Rng.Intn(2) == 0, r.Rng), "field")
+		case 1:
+			caseOtEntry(r, tbEntry(0, v, 10, 0, 64, false, r.Rng), "field")
+		case 2:
+			caseOtEntry(r, tbEntry(0, 64, 10, 0, v, false, r.Rng), "field")
+		default:
+			caseOtEntry(r, tbEntry(0, 64, 10, v, v+uint64(r.Rng.Intn(70)), false, r.Rng), "field")
+		}
 	}
 	for k := 0; k < budget/8; k++ {
 		caseOtEntry(r, tbEntry(pick(), pick(), uint32(pick()), pick(), pick(), r.Rng.Intn(2) == 0, r.Rng), "random")
@@ -515,10 +521,11 @@ func probeAppendableHeaders(r *vk.Run, dir string) {
 			if err != nil {
 				return
 			}
-			defer a.Close()
-			// (an Append would rotate chunk files for ever; the read is enough)
+			// (an Append would rotate chunk files for ever; the read panics while holding the
+			// appendable's mutex, so no Close afterwards)
 			var b [4]byte
 			a.ReadAt(b[:], 2)
+			a.Close()
 		})
 		if !ret {
 			r.Finding(fmt.Sprintf("%s: multiapp with FILE_SIZE=0 in the header did not return within 60s", appOpenFinding))
